@@ -37,10 +37,15 @@ CLAIM = {
             'channel of their user, the reported stream counts are the precoder widths, and a reduction matrix '
             'inside the noise eigenspace removes the external interference (W_k.E_k = 0).',
     'note': 'trusted: numpy/LAPACK kernels and doWF / calc_whitening_matrix / the metric functions (contracts checked '
-            'numerically per case, not proved here: doWF is C12, whitening is C20), binary64 rounding '
-            '(correspondence within 1e-9 of the absolute-value product bound), the harness.  Partial: "enough streams '
-            'are sacrificed" is stated as the contract Re.P = nv.P on the reduction matrix (checked per case when '
-            'n <= N - rank E); that the n least singular vectors of Re satisfy it is LAPACK\'s contract.',
+            'numerically per case, not proved here: doWF is C12, whitening is C20; C09 needs only p >= 0, some p > 0 '
+            'and invertible whitening matrices), binary64 rounding (correspondence within 1e-9 of the absolute-value '
+            'product bound), the harness.  The null-space and noise-eigenspace contracts are themselves derived in Lean '
+            'from the SVD factorisation contract (A = U S V^H, unitary factors).  Oracle-conditional: "enough streams '
+            'are sacrificed" (n <= N - rank E) enters as "the n smallest singular values of Re_k equal the noise '
+            'variance" (checked per case; the rank-counting argument behind it is not formalised); the Moore-Penrose '
+            'conditions of pinv and matrix_rank = (K-1)N on full-rank channels are checked, not proved.  The compiled '
+            'whole-method model op for block_diagonalize is run for K.N <= 9 (12 in a sample of thorough cases) because '
+            'the closure-based model costs O(T^6); all its steps are compared for every size.',
 }
 
 EPS = 2.220446049250313e-16
@@ -272,15 +277,28 @@ class Gen:
             if K * N <= maxT:
                 return K, N
 
-    def bd_case(self, shape=None):
+    SCALES = [1e-9, 1e-7, 1e-6, 1e-4, 1.0, 1e3, 1e6]
+
+    def scale(self, scale=None):
+        """overall scale of the whole channel (a common path loss / gain); block diagonalisation is
+        scale covariant.  Returns (scale, whether the noise variance follows with scale^2)"""
+        if scale is None:
+            scale = 1.0 if self.rng.chance(0.4) else self.rng.choice(self.SCALES)
+        return scale, self.rng.chance(0.5)
+
+    def bd_case(self, shape=None, scale=None):
         K, N = shape or self.shape()
         h, kind = self.channel(K, N)
         ipu, nv = self.params()
         if self.rng.chance(0.3):
             nv = 10.0 ** self.rng.uniform(0, 2) * ipu   # low SNR: some streams get no power
-        return {'variant': 'bd', 'K': K, 'N': N, 'H': enc(h), 'iPu': ipu, 'nv': nv, 'gen': kind}
+        c, follow = self.scale(scale)
+        if follow:
+            nv = nv * c * c
+        return {'variant': 'bd', 'K': K, 'N': N, 'H': enc(h * c), 'iPu': ipu, 'nv': nv, 'gen': kind, 'scale': c,
+                'noise_scaled': follow, 'cov_scale': self.rng.choice([x for x in self.SCALES if x != 1.0] + [-1.0, 0.5])}
 
-    def ext_case(self, variant=None, metric=None, shape=None, ns=None):
+    def ext_case(self, variant=None, metric=None, shape=None, ns=None, scale=None):
         r = self.rng
         K, N = shape or self.shape()
         h, kind = self.channel(K, N)
@@ -290,8 +308,15 @@ class Gen:
         if sum(src) > N:
             src = [1]
         e = self.raw(K * N, sum(src), cplx=(kind != 'real')) * 10.0 ** r.uniform(-1, 1)
+        c, follow = self.scale(scale)
+        h = h * c
+        if r.chance(0.7):
+            e = e * c           # the interferer sees the same path loss (else: only the desired links are scaled)
+        if follow:
+            nv = nv * c * c
         case = {'variant': variant or r.choice(['white', 'enh', 'enh', 'enh']), 'K': K, 'N': N, 'H': enc(h),
-                'E': enc(e), 'src': src, 'iPu': ipu, 'nv': nv, 'pe': 10.0 ** r.uniform(-2, 2), 'gen': kind}
+                'E': enc(e), 'src': src, 'iPu': ipu, 'nv': nv, 'pe': 10.0 ** r.uniform(-2, 2), 'gen': kind,
+                'scale': c, 'noise_scaled': follow}
         if case['variant'] == 'enh':
             case['metric'] = metric or r.choice(METRICS)
             case['ns'] = ns or r.randint(1, N)
@@ -371,8 +396,10 @@ def check_offdiag(h, ms_blocks, N, what):
             b = blk(h, j, N, 0) @ ms_blocks[k]
             lim = 1e-9 * c * nrm(blk(h, j, N, 0)) * nrm(ms_blocks[k]) + 1e-300
             if not np.abs(b).max() <= lim:
-                return ('interference:' + what, 'user %d receives the streams of user %d: |H_j M_k|max=%.3e (limit %.3e)'
-                        % (j, k, float(np.abs(b).max()), lim))
+                own = nrm(blk(h, k, N, 0) @ ms_blocks[k])
+                return ('interference:' + what, 'user %d receives the streams of user %d: |H_j M_k|max=%.3e (limit %.3e); '
+                        'leaked / own energy = %.3e' % (j, k, float(np.abs(b).max()), lim,
+                                                        (nrm(b) / max(own, 1e-300)) ** 2))
     return None
 
 
@@ -384,6 +411,8 @@ def o_bd_wf(case):
     new_h, ms = o.block_diagonalize(h)
     if ms.shape != (K * N, K * N) or new_h.shape != (K * N, K * N):
         return ('shape:wf', 'Ms %s newH %s' % (ms.shape, new_h.shape))
+    if not (np.all(np.isfinite(ms)) and np.all(np.isfinite(new_h))):
+        return ('non-finite:wf', 'Ms / newH contain inf or nan')
     nh_f, ms_f = bd.block_diagonalize(h, K, ipu, case['nv'])     # the module-level entry point
     if not (np.array_equal(nh_f, new_h) and np.array_equal(ms_f, ms)
             and np.array_equal(bd.calc_receive_filter(new_h), o.calc_receive_filter(new_h))):
@@ -425,6 +454,8 @@ def o_bd_nowf(case):
     new_h, ms = o.block_diagonalize_no_waterfilling(h)
     if ms.shape != (K * N, K * N) or new_h.shape != (K * N, K * N):
         return ('shape:nowf', 'Ms %s newH %s' % (ms.shape, new_h.shape))
+    if not (np.all(np.isfinite(ms)) and np.all(np.isfinite(new_h))):
+        return ('non-finite:nowf', 'Ms / newH contain inf or nan')
     blocks = [blk(ms, k, N, 1) for k in range(K)]
     r = check_offdiag(h, blocks, N, 'nowf')
     if r:
@@ -466,6 +497,8 @@ def o_ext(case):
             return ('stream-count:' + what, 'user %d: Ns=%d but no stream was to be sacrificed' % (k, n))
         if what in ('enh-naive', 'enh-fixed') and n != case['ns']:
             return ('stream-count:' + what, 'user %d: Ns=%d but num_streams=%d' % (k, n, case['ns']))
+    if not all(np.all(np.isfinite(ms[k])) and np.all(np.isfinite(wk[k])) for k in range(K)):
+        return ('non-finite:' + what, 'precoders / filters contain inf or nan')
     r = check_offdiag(h, list(ms), N, what)
     if r:
         return r
@@ -497,11 +530,43 @@ def o_ext(case):
     return None
 
 
+def o_scale_covariance(case):
+    """H -> c.H (c != 0) leaves the precoder directions and powers unchanged: per transmitter block the Gram
+    matrix M_k M_k^H is the same (without water-filling always; with water-filling when the noise follows
+    with c^2), and the effective channel is c times the old one up to the basis of the streams"""
+    bd, _, _ = _impl()
+    K, N, ipu, nv = case['K'], case['N'], case['iPu'], case['nv']
+    h = dec(case['H'])
+    c = case['cov_scale']
+    o = make_solver(case)
+    o2 = bd.BlockDiagonalizer(K, ipu, nv * c * c)
+    tol = 1e-9 * tol_scale(h) * ipu * K * N
+    for what, a, b in (('nowf', o.block_diagonalize_no_waterfilling(h), o.block_diagonalize_no_waterfilling(h * c)),
+                       ('wf', o.block_diagonalize(h), o2.block_diagonalize(h * c))):
+        (nh1, ms1), (nh2, ms2) = a, b
+        if ms1.shape != ms2.shape or not (np.all(np.isfinite(ms2)) and np.all(np.isfinite(nh2))):
+            return ('scale-covariance:' + what, 'scaled channel (x%g): Ms %s vs %s' % (c, ms1.shape, ms2.shape))
+        for k in range(K):
+            g1 = blk(ms1, k, N, 1) @ Hm(blk(ms1, k, N, 1))
+            g2 = blk(ms2, k, N, 1) @ Hm(blk(ms2, k, N, 1))
+            if not np.abs(g1 - g2).max() <= tol:
+                return ('scale-covariance:' + what, 'channel x%g: transmitter %d changes its precoder subspace / power: '
+                        '|M M^H - M\' M\'^H|max = %.3e (limit %.3e)' % (c, k, float(np.abs(g1 - g2).max()), tol))
+            e1 = blk(nh1, k, N, 0) @ Hm(blk(nh1, k, N, 0)) * abs(c) ** 2
+            e2 = blk(nh2, k, N, 0) @ Hm(blk(nh2, k, N, 0))
+            lim = 1e-9 * tol_scale(h) * K * N * max(nrm(e1), 1e-300)
+            if not np.abs(e1 - e2).max() <= lim:
+                return ('scale-covariance:' + what, 'channel x%g: effective channel of user %d is not c times the old one: '
+                        'relative %.3e' % (c, k, float(np.abs(e1 - e2).max() / max(nrm(e1), 1e-300))))
+    return None
+
+
 def o_bd(case):
     return o_bd_wf(case) or o_bd_nowf(case)
 
 
 ORACLES = {
+    'BlockDiagonalizer.scale_covariance': o_scale_covariance,
     'BlockDiagonalizer.block_diagonalize': o_bd_wf,
     'BlockDiagonalizer.block_diagonalize_no_waterfilling': o_bd_nowf,
     'WhiteningBD.block_diagonalize_no_waterfilling': o_ext,
@@ -511,7 +576,8 @@ ORACLES = {
 
 def calls_of(case):
     if case['variant'] == 'bd':
-        return ['BlockDiagonalizer.block_diagonalize', 'BlockDiagonalizer.block_diagonalize_no_waterfilling']
+        return ['BlockDiagonalizer.block_diagonalize', 'BlockDiagonalizer.block_diagonalize_no_waterfilling'] + \
+            (['BlockDiagonalizer.scale_covariance'] if 'cov_scale' in case else [])
     if case['variant'] == 'white':
         return ['WhiteningBD.block_diagonalize_no_waterfilling']
     return ['EnhancedBD.block_diagonalize_no_waterfilling']
@@ -552,10 +618,19 @@ class Lines:
         self.lines.append(line)
         self.judges.append(judge)
 
-    def run(self, drv):
+    def run(self, drv, ctx=None):
         out = drv.ask(self.lines)
-        for reply, judge in zip(out, self.judges):
-            judge(reply)
+        for line, reply, judge in zip(self.lines, out, self.judges):
+            try:
+                judge(reply)
+            except core.Infra:
+                raise
+            except Exception as e:
+                if ctx is None:
+                    raise
+                ctx.branch('corr:judge-exception')
+                ctx.tie_broken('correspondence', 'unusable-reply:' + line.split(' ', 1)[0],
+                               '%s: %s; reply %s' % (type(e).__name__, str(e)[:200], reply[:200]))
 
 
 def contract(ctx, name, ok, detail, case):
@@ -676,6 +751,7 @@ def corr_bd(ctx, L, case, idx):
     h = dec(case['H'])
     key = ('bd', K, N, case['gen'], idx)
     ctx.branch('corr:bd')
+    ctx.branch('scale:%g' % case.get('scale', 1.0))
     ctx.branch('gen:' + case['gen'])
     ctx.branch('size:K%d' % K)
     ctx.branch('size:N%d' % N)
@@ -806,6 +882,7 @@ def corr_white(ctx, L, case, idx):
     h = dec(case['H'])
     key = ('white', K, N, case['gen'], idx)
     ctx.branch('corr:white')
+    ctx.branch('scale:%g' % case.get('scale', 1.0))
     o = make_solver(case)
     ch = make_channel(case)
     calc_log = []
@@ -892,6 +969,7 @@ def corr_enh(ctx, L, case, idx):
     h = dec(case['H'])
     key = ('enh', metric, K, N, case['gen'], idx)
     ctx.branch('corr:enh-' + metric)
+    ctx.branch('scale:%g' % case.get('scale', 1.0))
     o = make_solver(case)
     ch = make_channel(case)
     calc_log = []
@@ -989,6 +1067,15 @@ def corr_enh(ctx, L, case, idx):
                 ok, w = same(c_svd[1][0], re_all[k])
                 ctx.corr('_calc_stream_reduction_matrix.svd-argument', case, word(ok, w), 'agree', key=key + ('svdarg', k, n))
                 contract(ctx, 'svd:unitary', np.abs(vh @ Hm(vh) - np.eye(N)).max() <= 1e-10 * N, 'V_H of Re_k', case)
+                u_re, s_re = c_svd[3][0], c_svd[3][1]
+                contract(ctx, 'svd:factorisation',
+                         np.abs((u_re * s_re) @ vh - re_all[k]).max() <= 1e-10 * N * max(1.0, nrm(re_all[k]))
+                         and np.abs(Hm(u_re) @ u_re - np.eye(N)).max() <= 1e-10 * N, 'Re_k != U S V_H', case)
+                if n <= N - ext_rank(blk(e, k, N, 0)):
+                    # "enough streams are sacrificed", spectrally: the n smallest singular values are the noise variance
+                    contract(ctx, 'svd:noise-singular-values',
+                             np.abs(s_re[N - n:] - case['nv']).max() <= 1e-9 * max(1.0, nrm(re_all[k])),
+                             'user %d n=%d: S=%s nv=%r' % (k, n, s_re.tolist(), case['nv']), case)
             c_inv, c_pinv = got[i0], got[i0 + 1]
             g = c_inv[3]
             wp = c_pinv[3]
@@ -1150,9 +1237,18 @@ def correspondence(ctx, n_bd, n_white, n_enh):
     for b0 in range(0, len(jobs), batch):
         L = Lines()
         for kind, case, i in jobs[b0:b0 + batch]:
-            {'bd': corr_bd, 'white': corr_white, 'enh': corr_enh}[kind](ctx, L, case, i)
+            n_lines = len(L.lines)
+            try:
+                {'bd': corr_bd, 'white': corr_white, 'enh': corr_enh}[kind](ctx, L, case, i)
+            except core.Infra:
+                raise
+            except Exception as e:   # the code under test raised (or returned something unusable) on a valid input
+                del L.lines[n_lines:]
+                del L.judges[n_lines:]
+                ctx.branch('corr:exception')
+                ctx.tie_broken('correspondence', 'exception:' + kind, '%s: %s' % (type(e).__name__, str(e)[:300]), case)
         first, second = materialise(L)
-        first.run(drv)
+        first.run(drv, ctx)
         L2 = Lines()
         for item, judge in second:
             tag, res, k = item[0], item[1], item[2]
@@ -1165,7 +1261,7 @@ def correspondence(ctx, n_bd, n_white, n_enh):
             N = res['pbar'].shape[0]
             L2.add('rx %d %d %s %s %s %s' % (N, n, cline(res['wp']), cline(res['pbar']), cline(res['heq_red']),
                                              cline(res['re'])), judge)
-        L2.run(drv)
+        L2.run(drv, ctx)
 
 
 # ------------------------------------------------------------------ check
